@@ -207,6 +207,8 @@ pub(crate) mod repr {
 
         // then proceed by multiplying base, which can require a few steps
         loop {
+            #[cfg(dashu_verif)]
+            dashu_base::verif::tick(dashu_base::verif::LOOP_LOG);
             match cmp_in_place(&est_pow, target) {
                 Ordering::Less => {
                     let carry = mul::mul_word_in_place(&mut est_pow, base);
@@ -246,6 +248,8 @@ pub(crate) mod repr {
 
         // then fix the error by trials
         loop {
+            #[cfg(dashu_verif)]
+            dashu_base::verif::tick(dashu_base::verif::LOOP_LOG);
             let next_pow = mul_ops::repr::mul_large(est_pow.as_slice(), base);
             let cmp = cmp_in_place(next_pow.as_slice(), target);
             if cmp.is_le() {
